@@ -187,9 +187,44 @@ def run(repo, rep, tier):
                 rep.finding("R3.4", npf, npf.node, f"_numpy hands batches to {sorted(slots_np)} but fill fills {sorted(slots_fill)}: a child that one "
                             f"path never visits keeps no record of the batch", stmt=f"slots {sorted(slots_np ^ slots_fill)}")
     extrema_tables(repo, rep)
+    count_multiplicity(repo, rep)
     coverage_guard(repo, prims, rep=rep)
     positive_control(repo, rep, r3)
     merge_formulas(repo, rep, r5, models)
+
+
+def count_multiplicity(repo, rep):
+    """R3.7: Count._numpy adds, per batch, what fill adds per row times the number of rows: a weight array is summed; a scalar
+    weight with a known batch length is multiplied by that length (on the identity AND on the transform path); only an
+    isolated Count with a scalar weight and no length counts the weight once."""
+    r7 = rep.rule("R3.7", "Count._numpy: the batch increment is (per-row increment) x (number of rows) on every branch", floor=8)
+    c = repo.cls("Count")
+    npf = repo.own_method(c, "_numpy")
+    for cfg in configs(repo, "Count", 1):
+        for wform in ("array", "scalar"):
+            for sk in (True, False):
+                try:
+                    paths = run_numpy(repo, cfg, "any", cfg.regions[0][1], "pos", wform, True, shape_known=sk)
+                except Unsup as e:
+                    raise AnalysisError(f"{npf.construct}: {e}")
+                for p in paths:
+                    if p.outcome == "raise":
+                        continue
+                    incs = p.entries
+                    if wform == "array":
+                        ok = len(incs) == 1 and isinstance(incs[0], tuple) and incs[0][0] == "rowsum"
+                        want = "the sum over the rows"
+                    elif sk:
+                        ok = len(incs) == 1 and repr(incs[0]).endswith("*opaque:n")
+                        want = "the per-row amount multiplied by the number of rows (shape[0])"
+                    else:
+                        ok = len(incs) == 1
+                        want = "one increment"
+                    r7.ob(ok, f"{cfg.desc}, {wform} weight, batch length {'known' if sk else 'unknown'}: entries += {incs}")
+                    if not ok:
+                        rep.finding("R3.7", npf, npf.node, f"{cfg.desc}, {wform} weight, batch length {'known' if sk else 'unknown'}: entries grows by "
+                                    f"{[repr(x) for x in incs]}; it must grow by {want}: per-row fill adds the (transformed) weight once for every row, "
+                                    f"so a batch of n rows must add n times as much", stmt=f"{cfg.desc.split('(')[1][:-1]}/{wform}/{'n' if sk else 'none'}: {[repr(x) for x in incs]}")
 
 
 def extrema_tables(repo, rep):
